@@ -19,9 +19,11 @@ Sub-checks (all lattice sweeps; a case = one configuration, the scripted driver 
              (mc.alphabets ``via: "reinit"``: parameter object built with other values, attributes re-assigned,
              ``initialisation()``, model constructor) of HEM, CGMY y=1.2 and of both margins of the copula (quick: levels 0, 1);
              thorough: also the twin of VG and CGMY y=0.5.  The twin is compared with the chain drift of the DIRECTLY built driver.
+             1-d "crash" HEM (sigma .1, p .4, eta1 10, eta2 1.5, intensity 3: mean down-jump 0.67, the Levy measure and the grid
+             reach below -100 %): in the captured sub-check the REAL driver hands over steps with 1 + dY < 0 (single and coupled)
            rarely used construction routes (1-d HEM unless said): the Python int x0=1; x0 omitted (default 0.0, on HEM and on
              the copula: Constant(m=1, d=2)); an integer numpy array as x0 (copula, Constant m=2) - words of length <= 2;
-             LevyLiborModel with ONE float as its curve (m=1, tenors (1,2)) at every level
+             LevyLiborModel with ONE float as its curve (m=1, tenors (1,2)) at every level; a numpy scalar as x0 with DiagX
            x levels {0 (single process, standalone and CouplingSDE at level 0), 1, 2 (coupled pair)}
            x HISTORIES by which the object reaches its state (each on its own fresh model):
              level 0   single              built, initialised, pre-computed
@@ -53,7 +55,16 @@ Sub-checks (all lattice sweeps; a case = one configuration, the scripted driver 
              quick     DT={0.25,1.0}       DL={-0.2,0.1}       DW={-0.3,0.4}            (8 letters,   584 words)
              thorough  DT={0.25,1.0,0.5}   DL={-0.2,0.1,0.0*}  DW={-0.3,0.4,0.0}        (27 letters, 20439 words)
              (2-d drivers: vectors; coupled pair: fine and coarse letters differ; * coupled third letter: fine 0.05, coarse 0),
-             followed by the words of length 1 AGAIN on the same objects (a shorter path after the longest ones).
+             then the EXTREME increments: letters whose increment (drift included), per component, is below -100 % (1 + dY < 0:
+             the Euler solution of DiagX changes sign; -1.7+0.1), exactly -100 % (dL = -1 - mu dt - dW with the leg's own reference
+             drift: 1 + dY = 0 up to rounding, DiagX stays 0 from there on), between -100 % and 0 (-0.75), large positive (+3.3),
+             thorough: far below (-3.4, |1 + dY| > 1).  Component j of leg l (fine 0, coarse 1) of extreme letter k has kind
+             k + 2l + j (mod 4 | 5) and its own values: the components of a copula driver and the two legs of the pair never get
+             the same kind on one step.  All words of length 1..3 over {extreme letters} + {ordinary letter 1 (thorough: 1, 6)}
+             with at least one extreme letter (quick 4+1 letters: 152 words; thorough 5+2: 385), for EVERY coefficient class,
+             driver, level, history and initial value, plus (functions without tenors) ONE long path of 24 (thorough 64) steps:
+             every letter but the 'exact' one, twice, then that one and an ordinary one.  The second object runs two such words.
+             Followed by the words of length 1 AGAIN on the same objects (a shorter path after the longest ones).
            The driver path the scheme consumes is REPLACED by the scripted ``StochasticJumpPath(times, diffusion, jumps)``
            (``markov_chain.simulate_one_path`` for the single process, ``driver_coupling_process.simulate_one_path_with_coupling``
            for the pair), so the check is a deterministic function of the word.  numpy's global generator is replaced by a
@@ -103,7 +114,8 @@ Sub-checks (all lattice sweeps; a case = one configuration, the scripted driver 
 
 Violation keys: C16:euler:<[other-]single|single-reused|coupling-l0|coupling-l0-reused|coupled|coupled-hist|coupled-hist-copy|
 coupled-reprice[:fine|:coarse]>:<coefficient function[:how built]>:<failure>:driver-d=<d>[-reinit]:<t<first-tenor | t>=first-tenor |
-no-tenors>:<x0=float|x0=int|x0=default>[:captured],   C16:pure:<component>:<value-depends-on-history|raises-X>:<step>   and
+no-tenors>:<x0=float|x0=int|x0=default|x0=numpy-scalar>[:dY<=-1][:captured]  (dY<=-1: the leg's driver path has a step with
+1 + dY <= 0, drift included - only on step-differs / closed-form-differs),   C16:pure:<component>:<value-depends-on-history|raises-X>:<step>   and
 C16:df:<model class>:<failure>:<where>[:side|:time-type=..].
 A violation of the euler sub-check carries the failing word(s) (case field ``only_words``; for the "again" phase the last long
 word and the short one): its replay runs them alone, after the 12 words of the second object.
@@ -166,13 +178,17 @@ DRIVERS = ["hem", "cgmy12", "cop-hem-vg"]
 DRIVERS_THOROUGH = DRIVERS + ["cop-hem-cgmy12"]  # infinite variation copula: non-trivial diffusion matrix, epsilon < 1
 # reduced-menu drivers: a pure-jump driver of finite variation (identically zero diffusion path) and the "reinit" twins
 # (mc.alphabets.with_reinit: same parameter values reached through a re-assigned and re-initialised parameter object)
-DRIVERS_REDUCED = ["vg", "hem@reinit", "cgmy12@reinit", "cop-hem-vg@reinit"]
+DRIVERS_REDUCED = ["vg", "hem@reinit", "cgmy12@reinit", "cop-hem-vg@reinit", "hem-crash"]
 DRIVERS_REDUCED_THOROUGH = DRIVERS_REDUCED + ["vg@reinit", "cgmy05"]
 DRIVER_SPECS = {
     "hem": {"family": "hem", "exp": False, "params": {}},
     "cgmy12": {"family": "cgmy", "exp": False, "params": {"c": 1.0, "g": 15.0, "m": 20.0, "y": 1.2}},
     "cgmy05": {"family": "cgmy", "exp": False, "params": {"c": 1.0, "g": 15.0, "m": 20.0, "y": 0.5}},
     "vg": {"family": "vg", "exp": False, "params": {}},
+    # a driver whose Levy measure has mass below -100 % (mean down-jump 1/eta2 = 0.67; its grid reaches below -1): real driver
+    # steps with 1 + dY < 0, on which the Euler solution of dX = diag(X) dY changes sign
+    "hem-crash": {"family": "hem", "exp": False, "params": {"sigma": 0.1, "p": 0.4, "eta1": 10.0, "eta2": 1.5, "intensity": 3.0}},
+    "hem-crash-b": {"family": "hem", "exp": False, "params": {"sigma": 0.15, "p": 0.3, "eta1": 8.0, "eta2": 1.2, "intensity": 2.0}},
     # drivers of the SECOND object of the same class used in between (other parameters: another chain drift)
     "hem-b": {"family": "hem", "exp": False, "params": {"sigma": 0.08, "p": 0.4, "eta1": 15.0, "eta2": 30.0, "intensity": 2.0}},
     "cgmy12-b": {"family": "cgmy", "exp": False, "params": {"c": 0.5, "g": 6.0, "m": 6.0, "y": 1.2}},
@@ -232,6 +248,58 @@ def _letters(d, coupled, tier):
     ]
 
 
+# EXTREME increments (per component, drift included): a step below -100 % (1 + dY < 0: the Euler solution of dX = diag(X) dY
+# changes sign), exactly -100 % (1 + dY = 0 up to rounding: the solution of DiagX is 0 from there on), between -100 % and 0, a
+# large positive one, and (thorough) far below -100 % (|1 + dY| > 1).  The components of a 2-d driver and the two legs of the
+# coupled pair get DIFFERENT kinds on one step (component j of leg l of letter k has kind k + 2 l + j), with other values.
+EXT_KINDS = ["below", "exact", "between", "large", "far-below"]
+EXT_DT = [0.25, 1.0, 0.25, 1.0, 0.5]
+
+
+def _ext_component(kind, dt, mu, j):
+    s = 1.0 + 0.05 * j
+    if kind == "below":
+        return -1.7 * s, 0.1
+    if kind == "exact":  # mu dt + dL + dW = -1
+        dw = 0.25 * s
+        return -1.0 - mu * dt - dw, dw
+    if kind == "between":
+        return -0.6 * s, -0.15
+    if kind == "large":
+        return 2.5 * s, 0.8
+    return -3.0 * s, -0.4
+
+
+def _extreme_letters(d, coupled, tier, mus):
+    """mus = driver drifts (d,) of the legs ([single] or [fine, coarse]): the 'exact' kind needs them."""
+    nk = 5 if tier == "thorough" else 4
+    shape = ((2,) if coupled else ()) + ((d,) if d > 1 else ())
+    out = []
+    for k in range(nk):
+        dt = EXT_DT[k]
+        vals = [[_ext_component(EXT_KINDS[(k + 2 * leg + j) % nk], dt, float(np.ravel(mus[leg])[j]), 2 * leg + j)
+                 for j in range(d)] for leg in range(2 if coupled else 1)]
+        dl = np.array([[v[0] for v in row] for row in vals], dtype=float).reshape(shape)
+        dw = np.array([[v[1] for v in row] for row in vals], dtype=float).reshape(shape)
+        out.append((dt, dl, dw))
+    return out
+
+
+def increment_classes(dY):
+    """Classes of the driver increments dY (drift included) of one leg: set of names."""
+    out = set()
+    f = 1.0 + np.asarray(dY, dtype=float)
+    if np.any(f < -1e-12):
+        out.add("below-100%")
+    if np.any(np.abs(f) <= 1e-12):
+        out.add("exactly-100%")
+    if np.any((f > 1e-12) & (f < 1.0)):
+        out.add("between-100%-and-0")
+    if np.any(f > 2.0):
+        out.add("above+100%")
+    return out
+
+
 def _x0_menu(m, rates):
     if rates:
         return {1: [[0.02], [0.03]], 2: [[0.02, 0.02], [0.01, 0.03]], 3: [[0.02, 0.02, 0.02], [0.01, 0.03, 0.02]]}[m]
@@ -287,7 +355,7 @@ def other_case(case):
         c["tenors"] = OTHER_TENORS[len(c["tenors"])]
         c["sigma_scale"] = 0.6
     x0 = case["x0"]
-    x0 = 1 if x0 in (0, None, "int", "default", "int-array") else 0
+    x0 = 1 if x0 in (0, None, "int", "default", "int-array", "np-float") else 0
     out = {"sub": case["sub"], "driver": other_driver(case["driver"]), "coef": c, "x0": x0, "level": case["level"],
            "tier": case["tier"]}
     return out
@@ -377,6 +445,9 @@ def cases(tier):
                                 "level": level, "tier": tier, "max_steps": 2})
                 out.append({"sub": "euler", "driver": "cop-hem-vg", "coef": {"kind": "constant", "m": 2, "c": 2.0}, "x0": "int-array",
                             "level": level, "tier": tier, "max_steps": 2})
+                # a numpy scalar as x0, with the state-dependent coefficient
+                out.append({"sub": "euler", "driver": "hem", "coef": {"kind": "diagx", "m": 1}, "x0": "np-float",
+                            "level": level, "tier": tier, "max_steps": 2})
     return out
 
 
@@ -428,6 +499,8 @@ def make_model(drv, c, x0i):
         return S.LevyDrivenSDEModel(driver=driver), np.array([0.0])
     if x0i == "int":
         x0_arg, x0 = 1, np.array([1.0])
+    elif x0i == "np-float":  # a numpy scalar as initial value
+        x0_arg, x0 = np.float64(1.5), np.array([1.5])
     elif x0i == "int-array":  # an integer numpy array as initial value
         x0_arg = np.array([1, 2, 3][:m])
         x0 = x0_arg.astype(float)
@@ -836,7 +909,7 @@ def is_heavy(case):
 
 
 def x0_class(x0i):
-    return {"int": "x0=int", "int-array": "x0=int", "default": "x0=default"}.get(x0i, "x0=float")
+    return {"int": "x0=int", "int-array": "x0=int", "default": "x0=default", "np-float": "x0=numpy-scalar"}.get(x0i, "x0=float")
 
 
 class Config:
@@ -890,9 +963,9 @@ class Config:
             self.mus = [reference_drift(self.drv, self.level), reference_drift(self.drv, self.level - 1)]
         self.coupled = self.level > 0
 
-    def key(self, name, comp, failure, tcls):
+    def key(self, name, comp, failure, tcls, inc=""):
         comp = f":{comp}" if comp else ""
-        return f"C16:euler:{name}{comp}:{self.label}:{failure}:{self.drvcls}:{tcls}:{self.x0cls}"
+        return f"C16:euler:{name}{comp}:{self.label}:{failure}:{self.drvcls}:{tcls}:{self.x0cls}{inc}"
 
     def compare(self, sh, name, obj_model, sde_owner, det_path, sde_path, drv_times, drv_W, drv_L, what):
         """Evaluate the oracle for one returned SDE path against the driver path (arrays as handed over by the driver)."""
@@ -923,6 +996,11 @@ class Config:
             L = _as2d(drv_L if ci is None else drv_L[ci], d)
             obs = sol if ci is None else sol[ci]
             sh.count("evaluations")
+            icls = increment_classes(np.diff(mu[:, None] * times[None, :] + W + L, axis=1))
+            for k_ in sorted(icls):
+                sh.cls(f"increment:{k_}:{'coupled' if self.coupled else 'single'}:{self.label}")
+            # a path with a step at or below -100 % gets its own input class (the older keys are unchanged)
+            inc = ":dY<=-1" if icls & {"below-100%", "exactly-100%"} else ""
             try:
                 ref = euler_reference(self.x0, times, W, L, mu, a_fun, sde_fun)
             except Exception as e:  # the model's own coefficient function fails on the oracle's state
@@ -934,7 +1012,7 @@ class Config:
             bad = _first_bad(obs, ref, scale)
             if bad is not None:
                 i = bad[-1]
-                sh.violation(self.key(name, comp, "step-differs", tcls),
+                sh.violation(self.key(name, comp, "step-differs", tcls, inc),
                              f"{what}: solution at time index {i} (t={times[i]}) is {obs[:, i].tolist()}, Euler recursion gives {ref[:, i].tolist()}",
                              {"times": times, "W": W, "L": L, "mu": mu, "x0": self.x0, "observed": obs, "euler": ref})
                 ok = False
@@ -945,7 +1023,7 @@ class Config:
                 bad = _first_bad(obs, cf, scale)
                 if bad is not None:
                     i = bad[-1]
-                    sh.violation(self.key(name, comp, "closed-form-differs", tcls),
+                    sh.violation(self.key(name, comp, "closed-form-differs", tcls, inc),
                                  f"{what}: solution at time index {i} is {obs[:, i].tolist()}, closed form gives {cf[:, i].tolist()}",
                                  {"times": times, "W": W, "L": L, "mu": mu, "x0": self.x0, "observed": obs, "closed": cf})
                     ok = False
@@ -1061,9 +1139,16 @@ def _sub_euler(sh, case):
         sh.cls(f"level:{cfg.level}")
         letters = _letters(cfg.d, cfg.coupled, tier)
         nl = len(letters)
+        # the extreme letters follow the ordinary ones in the list (indices nl, nl+1, ...): a word is a tuple of indices
+        ext = _extreme_letters(cfg.d, cfg.coupled, tier, cfg.mus)
+        letters = letters + ext
+        mixed = list(range(nl, nl + len(ext))) + ([1, 6] if tier == "thorough" else [1])
         max_steps = case.get("max_steps", 3)
+        extreme = [w for n in range(1, max_steps + 1) for w in itertools.product(mixed, repeat=n) if max(w) >= nl]
+        if "tenors" not in cfg.c:  # ONE long path (times beyond any tenor): every letter but the 'exact' one, twice, then that one
+            extreme.append(tuple(i for i in range(nl + len(ext)) if i != nl + 1) * 2 + (nl + 1, 1))
         ones = [(i,) for i in range(nl)]
-        other_words = ones + [(1, 6), (6, 1), (4, 4), (3, 5)]
+        other_words = ones + [(1, 6), (6, 1), (4, 4), (3, 5), (nl,), (nl + 1, nl + 3)]
         n_ok = n_words = n_other = 0
         last = None
         if case.get("only_words") is not None or case.get("only_word") is not None:  # replay of the words of one violation
@@ -1073,6 +1158,8 @@ def _sub_euler(sh, case):
             longer = list(itertools.chain.from_iterable(itertools.product(range(nl), repeat=n) for n in range(2, max_steps + 1)))
             phases = [("other", other_words, ""), ("main", ones, ""), ("other", other_words, " (after the objects of the case)"),
                       ("main", longer, ""),
+                      # increments below, at and near -100 %, and large ones, mixed with an ordinary letter
+                      ("main", extreme, ""),
                       # a SHORTER path after the longest ones, on the same objects
                       ("main", ones, " (again, after the longest words)")]
         previous = None
